@@ -286,7 +286,57 @@ def gen_workspace(rng, npatches=None, fail_prob=0.4, features=("modify", "create
         if rng.random() < 0.1:
             series += rng.choice([b"# comment\n", b"\n", b"#\n", b"   \n", b"\t\n", b" \t \n"])
         series += (b"  " if rng.random() < 0.05 else b"") + l + b"\n"
-    return {"files": init, "dirs": dirs, "series": series, "applied": None, "patches": patches}
+    w = {"files": init, "dirs": dirs, "series": series, "applied": None, "patches": patches}
+    add_links(w)
+    return w
+
+
+def gen_repetitive_workspace(rng):
+    """one file made of repeated identical blocks and a series of 2-5 patches against it whose line numbers are
+    stale by a multiple of the block length or a little more: where a hunk lands depends only on the file and the
+    hunk, never on what the same invocation did before"""
+    blk = [b"blk", b"item", b"end"][: rng.randint(2, 3)]
+    nblocks = rng.randint(3, 6)
+    lines = [b"start"]
+    for i in range(nblocks):
+        lines += blk
+        if rng.random() < 0.5:
+            lines.append(b"mid%d" % i)
+    lines += [b"uniq-a", b"uniq-b", b"uniq-c", b"last"]
+    cur = list(lines)
+    patches, series = {}, b""
+    for pi in range(rng.randint(2, 5)):
+        ctx = rng.randint(0, 2)
+        i = rng.randrange(len(cur))
+        lo, hi = max(0, i - ctx), min(len(cur), i + ctx + 1)
+        new = cur[i].upper() if cur[i] != cur[i].upper() else cur[i] + b"!"
+        shift = rng.choice([0, 0, len(blk), -len(blk), len(blk) + 1, 2 * len(blk), rng.randint(-6, 6)])
+        start = max(1, lo + 1 + shift)
+        body = b"".join(b" " + l + b"\n" for l in cur[lo:i]) + b"-" + cur[i] + b"\n+" + new + b"\n" + \
+            b"".join(b" " + l + b"\n" for l in cur[i + 1:hi])
+        text = b"--- a/f.txt\n+++ b/f.txt\n@@ -%d,%d +%d,%d @@\n" % (start, hi - lo, start, hi - lo) + body
+        name = b"r%d.patch" % pi
+        patches[name] = text
+        series += name + b"\n"
+        cur[i] = new
+    return {"files": {b"f.txt": (b"".join(l + b"\n" for l in lines), 0o644)}, "dirs": [], "applied": None,
+            "series": series, "patches": patches}
+
+
+def add_links(w, prob=0.2):
+    """in some workspaces one initial file is reached through a symbolic link: the file lives under store/ (a name
+    no patch carries) and the tree has a link to it.  rapidquilt reads through the link and replaces the link by a
+    regular file when it saves, so for the model the link is simply a file with that content and mode.  The choice
+    is derived from the workspace bytes, not from the generator's random stream."""
+    import random
+    import zlib
+    r2 = random.Random(zlib.crc32(w["series"] + b"".join(v for _, v in sorted(w["patches"].items()))))
+    if r2.random() >= prob or not w["files"]:
+        return
+    name = r2.choice(sorted(w["files"]))
+    target = b"store/" + name.replace(b"/", b"_") + b".real"
+    w["files"][target] = w["files"][name]
+    w["links"] = {name: target}
 
 
 def default_cfg():
@@ -331,7 +381,19 @@ def canon_snapshot(snap):
     return " | ".join(x[1] for x in sorted(set(ents)))
 
 
+def sync_links(w):
+    """a link and its target are one file: same content and mode in the model's view; links whose name or target
+    is gone (shrinking, trees fed back from the model) are dropped"""
+    links = w.get("links") or {}
+    for name, target in list(links.items()):
+        if name in w["files"] and target in w["files"]:
+            w["files"][name] = w["files"][target]
+        else:
+            del links[name]
+
+
 def model_line(w, cfg):
+    sync_links(w)
     files = dict(w["files"])
     files[b"series"] = (w["series"], 0o644)
     if w.get("applied") is not None:
@@ -354,10 +416,16 @@ def model_line(w, cfg):
 
 
 def materialize(w, prefix="l3"):
+    sync_links(w)
     files = {p: (d, (m if m is not None and m >= 0 else None)) for p, (d, m) in w["files"].items()}
     d = wsmod.make_workspace(files, w["patches"], w["series"], w.get("applied"), prefix=prefix)
     for extra in w["dirs"]:
         os.makedirs(os.path.join(d.encode(), extra), exist_ok=True)
+    for name, target in (w.get("links") or {}).items():
+        # name becomes a symbolic link to target (a file of the tree with the same content and mode)
+        full = os.path.join(d.encode(), name)
+        os.unlink(full)
+        os.symlink(os.path.relpath(target, os.path.dirname(name) or b"."), full)
     return d
 
 
